@@ -269,12 +269,18 @@ class Summaries:
                 continue
             seen.add(cid)
             ks = it.kinds_of(it.cells[cid])
+            structural = hv.is_structural(cid, "cur")
             sub = frozenset(k for k in ks if self.prog.is_subclass(k, tname))
             if sub == ks:
                 definite.append(Node(cid))
             elif sub:
-                maybe = True
-            structural = hv.is_structural(cid, "cur")
+                if structural or ks <= LEAF:
+                    # a materialised node: its class is a fact of the tree, split on it (like isinstance)
+                    if it.isinstance_(Node(cid), T):
+                        definite.append(Node(cid))
+                    ks = it.kinds_of(it.cells[cid])
+                else:
+                    maybe = True
             if not structural:
                 if not (ks <= LEAF):
                     maybe = True
